@@ -1611,9 +1611,12 @@ func (in *Interp) strConcat(a, b Str) Str {
 
 func (in *Interp) blocked(what string) {
 	if in.onBlock != nil {
+		// a goroutine-loop body under test has come round to its blocking
+		// point: run the registered post-condition and end the path normally
 		f := *in.onBlock
 		in.onBlock = nil
 		in.invoke(in.top, f, nil, nil)
+		panic(pathEnd{"ok", "blocked after onBlock: " + what})
 	}
 	panic(pathEnd{"blocked", what})
 }
